@@ -243,6 +243,19 @@ def run(chk):
             # explicit tolerance
             check("explicit", obj.is_eq_constraint_satisfied(atol), obj.is_ineq_constraint_satisfied(atol),
                   obj.is_physical(atol_eq_const=atol, atol_ineq_const=atol))
+            # two different tolerances: the verdict is the conjunction of the two sub-verdicts, each at ITS tolerance
+            # (the sub-verdicts themselves are compared with the specification at every tolerance of the grid)
+            for a_eq, a_in in ((atol, atol * 1e3), (atol * 1e3, atol), (atol, atol * 1e-3)):
+                try:
+                    ph = bool(obj.is_physical(atol_eq_const=a_eq, atol_ineq_const=a_in))
+                    want_ph = bool(obj.is_eq_constraint_satisfied(a_eq)) and bool(obj.is_ineq_constraint_satisfied(a_in))
+                    if ph != want_ph:
+                        chk.violation("verdict:split_tolerance:%s" % ty, "%s: is_physical(atol_eq_const=%g, atol_ineq_const=%g)=%s but eq(%g)=%s and ineq(%g)=%s" % (
+                            key, a_eq, a_in, ph, a_eq, obj.is_eq_constraint_satisfied(a_eq), a_in, obj.is_ineq_constraint_satisfied(a_in)), case)
+                        break
+                except Exception as e:
+                    chk.violation("verdict:split_tolerance:exception:%s" % ty, "%r" % e, case)
+                    break
             # the global setting
             Settings.set_atol(atol)
             try:
